@@ -25,9 +25,20 @@ class Tables:
             if init['k'] != 'struct':
                 raise AnalysisBroken('language table %s has an unexpected initialiser' % g['name'])
             vals = {}
+            mem = P.members(LANG_STRUCT)
             for f in init['fields']:
-                nm = ft[f['off']][0]
-                vals[nm] = f['v']
+                for nm, (ob, sb) in mem.items():
+                    if sb >= 8 and ob // 8 == f['off'] and nm not in ('is_sorted', 'has_prefix', 'has_accents', 'compose'):
+                        vals[nm] = f['v']
+            for nm in ('is_sorted', 'has_prefix', 'has_accents', 'compose'):
+                if nm not in mem: continue
+                ob, sb = mem[nm]
+                for f in init['fields']:
+                    sz = f['v'].get('size') or 0
+                    if f['v']['k'] in ('int', 'zero') and f['off'] * 8 <= ob < (f['off'] + max(sz, 1)) * 8:
+                        raw = f['v'].get('v', 0) if f['v']['k'] == 'int' else 0
+                        width = sb if sb < 8 else 8
+                        vals[nm] = {'k': 'int', 'v': (raw >> (ob - 8 * f['off'])) & ((1 << width) - 1)}
             missing = [nm for nm in ('name', 'name_en', 'separator', 'is_sorted', 'has_prefix', 'has_accents', 'compose', 'words') if nm not in vals]
             if missing:
                 raise AnalysisBroken('language table %s: fields %s are not plain struct members in the compiled layout (bit-fields / renamed?)' % (g['name'], missing))
